@@ -5,6 +5,9 @@ C03 — property theorems about `labelModel`, the executable model of `mahotas.l
 import Mahotas.Proofs.C03Label
 import Mahotas.Proofs.C03Spec
 import Mahotas.Proofs.C03Iter
+import Mahotas.Proofs.C03Addr
+import Mahotas.Generated.Guards
+import Mathlib.Data.Int.Interval
 namespace Mahotas.C03
 open Mahotas Relation
 
@@ -301,4 +304,85 @@ example :
           (FilterIter.retrieve (FilterIter.mkFIter .constant [1, 2] [3, 3] (fpOf #[1, 0, 0, 1, 0, 0, 0, 0, 0]))
             (FilterIter.stateAfter (FilterIter.mkFIter .constant [1, 2] [3, 3] (fpOf #[1, 0, 0, 1, 0, 0, 0, 0, 0])) [1, 2] 1) j))
       = [0] := by
+  decide +kernel
+
+/-! ## Round 4 — the address-level model; what the native kernel is handed; the int32 domain -/
+
+/-- **C03 (address-level model = coordinate model).** `labelAddr` is `label()` as the C++ runs it on ADDRESSES: the int32
+buffer doubles as the union–find parent array, the scan walks flat indices `i`, and a neighbour is read at address
+`i + flatDelta shape k` — the flat delta `Σ_d k_d · Π_{e>d} shape_e` of the footprint entry `k` in the C-contiguous buffer —
+unless the offset table holds the border flag for it (`ExtendConstant`, `p + k` outside: `retrieve` returns false). For every
+rank, shape, image filling its shape and connectivity element of the image's rank it returns exactly the labels and the
+count of the coordinate model `labelModel .constant` (which computes the neighbour's coordinates, applies `fix_offset`
+and ravels them), hence of the proved specification `specLabels`. The read of footprint entry `k` at pixel `i` is, as an
+`Option`, literally the coordinate model's neighbour: `retrieveAddr shape i k = (fixPos .constant shape (p_i + k)).map ravel`. -/
+theorem C03_addr_model_eq_coord (shape : List Nat) (data : List Int) (bshape : List Nat) (bc : Array Int)
+    (hb : bshape.length = shape.length) (hsz : data.length = shapeSize shape) :
+    labelAddr shape data bshape bc = labelModel .constant shape data bshape bc ∧
+    labelAddr shape data bshape bc = specLabels shape data bshape bc ∧
+    (∀ i, i < shapeSize shape → ∀ k ∈ offsets bshape bc,
+      retrieveAddr shape i k = (fixPos .constant shape (addPos (unravelI shape i) k)).map (ravelI shape)) := by
+  have h := labelAddr_eq shape data bshape bc hb hsz
+  refine ⟨h, by rw [h, C03_model_eq_specLabels shape data bshape bc hb hsz], fun i hi k hk => ?_⟩
+  exact retrieveAddr_eq shape i hi k (by rw [offsets_length bshape bc k hk, hb])
+
+/-- **C03 (every read of the scan is inside the buffer).** Each address `i + delta` at which the address-level scan reads
+`labeled[…]` (all pixels `i`, all footprint entries that are not flagged) is `< shapeSize shape`, the number of elements of
+the buffer — for every rank, shape and element of the image's rank, elements larger than the image and even-sided ones
+included. (A bounds lemma for C10: with `ExtendNearest`, the pinned code, the same holds, but the read lands on a clamped
+border pixel — defect #5.) -/
+theorem C03_addr_reads_in_bounds (shape : List Nat) (n : Nat) (hn : n ≤ shapeSize shape) (bshape : List Nat)
+    (bc : Array Int) (hb : bshape.length = shape.length) :
+    ∀ a ∈ addrReads shape n (offsets bshape bc), a < shapeSize shape :=
+  addrReads_lt shape n hn _ (fun k hk => by rw [offsets_length bshape bc k hk, hb])
+
+/-- **C03 (source tie: the kernel is handed the OUTPUT buffer, never the caller's input view).** From the argument links
+`translator/links.py` regenerates from `labeled.py` on every run: the single call of `_labeled.label` in `label` passes
+`_get_output(array, out, …)` for the C parameter `array` — a fresh `np.empty(array.shape, int32)` or the caller's `out`
+after `_get_output` has checked its dtype, shape and C-contiguity — and `get_structuring_elem(output, Bc)` for `filter`.
+The caller's `array` only goes through numpy's `output[:] = (array != 0)`: whatever its strides, dtype or byte order, the
+kernel walks a C-contiguous int32 buffer holding the logical 0/1 content, which is why the address-level model uses the
+C strides `Π_{e>d} shape_e` and why the result depends on the input only through `array != 0` in logical order. -/
+theorem C03_kernel_sees_output_buffer :
+    ((Generated.argLinkTable.filter fun e => e.1 == "labeled.label").map fun e => (e.2.1, e.2.2.1))
+      = [("_labeled.label", 0)] ∧
+    Generated.links_labeled_label__labeled_label
+      = [("array", .output "array" "out"), ("filter", .structElem "array" "Bc")] := by
+  decide
+
+/-- **C03 (documented domain: int32).** The buffer is `int32` and, during the scan, holds flat indices. If the image has
+fewer than `2³¹` pixels then the count is at most the number of pixels and every label of the result lies in
+`[0, 2³¹)`: nothing the kernel stores at the end overflows the buffer's type. (Beyond `2³¹ − 1` pixels `const int N =
+labeled.size()` itself overflows: outside the domain, not reachable with the memory of the test machine.) -/
+theorem C03_labels_fit_int32 (m : Mode) (shape : List Nat) (data : List Int) (bshape : List Nat) (bc : Array Int)
+    (hN : data.length < 2 ^ 31) :
+    (labelModel m shape data bshape bc).2 ≤ data.length ∧
+    ∀ l ∈ (labelModel m shape data bshape bc).1, 0 ≤ l ∧ l < 2 ^ 31 := by
+  obtain ⟨hlen, _, hrange, hall, _⟩ := C03_label_numbering m shape data bshape bc
+  have hcount : (labelModel m shape data bshape bc).2 ≤ data.length := by
+    by_contra hgt
+    have hgt := not_le.1 hgt
+    have hsub : Finset.Icc (1 : Int) (labelModel m shape data bshape bc).2 ⊆
+        (labelModel m shape data bshape bc).1.toFinset := by
+      intro k hk
+      rw [Finset.mem_Icc] at hk
+      exact List.mem_toFinset.2 (hall k hk.1 hk.2)
+    have h1 := Finset.card_le_card hsub
+    have h2 := List.toFinset_card_le (labelModel m shape data bshape bc).1
+    rw [Int.card_Icc] at h1
+    omega
+  refine ⟨hcount, fun l hl => ⟨(hrange l hl).1, ?_⟩⟩
+  have := (hrange l hl).2
+  omega
+
+/-- non-vacuity: the address-level model on the witness of defect #5 (`[[1,1]]`, element `{(-1,-1)}`: two components),
+on a 2×3 image with the 8-neighbourhood, and with an element LARGER than the image (5×5 on 2×2); the reads of the scan
+with their addresses. -/
+example :
+    labelAddr [1, 2] [1, 1] [3, 3] #[1, 0, 0, 0, 0, 0, 0, 0, 0] = ([1, 2], 2) ∧
+    labelAddr [2, 3] [1, 0, 1, 0, 1, 0] [3, 3] #[1, 1, 1, 1, 1, 1, 1, 1, 1] = ([1, 0, 1, 0, 1, 0], 1) ∧
+    labelAddr [2, 2] [1, 0, 0, 1] [5, 5] (Array.replicate 25 1) = ([1, 0, 0, 1], 1) ∧
+    addrReads [2, 3] 6 (offsets [3, 3] #[0, 1, 0, 1, 1, 1, 0, 1, 0]) =
+      [0, 1, 3, 0, 1, 2, 4, 1, 2, 5, 0, 3, 4, 1, 3, 4, 5, 2, 4, 5] ∧
+    flatDelta [2, 3] [-1, 1] = -2 := by
   decide +kernel
